@@ -39,7 +39,7 @@ Complex::Complex(Type::TypeMinor type_id, void * handle)
   DBG(DBG_DEBUG, "%s line %d\n", __PRETTY_FUNCTION__, __LINE__);
 #endif
   assert(_instance);
-  _refcount = new int(1);
+  _refcount = new std::atomic<int>(1);
 }
 
 Complex * Complex::newInstance(
@@ -130,7 +130,7 @@ void Complex::swap(Complex& c) noexcept
 #ifdef DEBUG_COMPLEX
   DBG(DBG_DEBUG, "%s line %d\n", __PRETTY_FUNCTION__, __LINE__);
 #endif
-  int * tmp_ref = _refcount;
+  std::atomic<int> * tmp_ref = _refcount;
   void * tmp_ptr = _instance;
   Type tmp_typ = _type;
   _refcount = c._refcount;
